@@ -280,14 +280,26 @@ inductive CMove
   | finish (j : Nat) (order : List Subnet) (picks : List IP)       -- second phase of pending action `j`
 deriving Repr, Inhabited
 
-/-- the lock string an atomic move needs -/
-def lockOfMove (G : Facts) (s : State) : Move7 → Option String
-  | .base (.filter ns name _ _ _) =>
+/-- the pod whose `getSubnet` an atomic core move runs: Filter after the resource-name check, Preempt for a pod whose
+    policy is not "release on delete" (`preempt.go` returns before `getSubnet` otherwise) -/
+def subnetPod (s : State) : Move → Option Pod
+  | .filter ns name _ _ _ =>
     match s.pods.get (ns, name) with
-    | some pod => if pod.wants then filterLockOf G pod else none
+    | some pod => if pod.wants then some pod else none
+    | none => none
+  | .preempt ns name _ _ _ =>
+    match s.pods.get (ns, name) with
+    | some pod => if policyOf pod = 0 then none else some pod
+    | none => none
+  | _ => none
+
+/-- the lock string an atomic move needs (`getSubnet` takes the pool lock whoever calls it) -/
+def lockOfMove (G : Facts) (s : State) : Move7 → Option String
+  | .base m =>
+    match subnetPod s m with
+    | some pod => filterLockOf G pod
     | none => none
   | .apiPool name _ pre _ _ _ => if pre then apiLockOf G name else none
-  | _ => none
 
 /-- the size a Filter of this pod reads from the Pool lister -/
 def seenSize (s : State) (pod : Pod) : Option Nat :=
